@@ -243,7 +243,7 @@ func coqMem(c memCase, o memObs) string {
 
 const (
 	wuBase   = 100000
-	wuWitN   = 6
+	wuWitN   = 9
 	constsID = 999999
 )
 
